@@ -150,6 +150,15 @@ Theorem endless_ranges_not_transitive :
   vals_eq F0 a b 1 2 = Some false.
 Proof. repeat split; vm_compute; reflexivity. Qed.
 
+(* the same inside arrays: [1 ...] equals [1] and [1 1] *)
+Theorem endless_ranges_not_transitive_in_arrays :
+  let inf := [SArr 105 3; SV 105 (VI 1); SRep 0 0; SV 105 (VI 1)] in
+  let a := [SArr 105 1; SV 105 (VI 1)] in
+  let b := [SArr 105 2; SV 105 (VI 1); SV 105 (VI 1)] in
+  vals_eq F0 a inf 2 4 = Some true /\ vals_eq F0 inf b 4 3 = Some true /\
+  vals_eq F0 a b 2 3 = Some false.
+Proof. repeat split; vm_compute; reflexivity. Qed.
+
 (* NaN: cmp says "smaller" in both directions *)
 Theorem nan_not_antisymmetric :
   vals_cmp F0 [SV 102 (VF 2143289344)] [SV 102 (VF 0)] 1 1 = Some (-1) /\
